@@ -183,6 +183,7 @@ impl Scenario for C10Faults {
         cfg.modules = (1, 4);
         cfg.assigns = (1, 12);
         cfg.comments = false;
+        cfg.odd_governors = w.chance(1, 3);
         let set = gen::generate(&mut w, &cfg);
         let backend = BackendSel::random(&mut w);
         let mut f = root.fork("faults");
@@ -196,6 +197,9 @@ impl Scenario for C10Faults {
                 continue;
             }
             let a = &set.modules[module].assigns[assign];
+            if !matches!(a.kind, AKind::Type | AKind::Value) {
+                continue;
+            }
             let referenced = !dependents(&set, module, &a.name).is_empty();
             faults.push(match f.below(10) {
                 0..=2 => DFault::BuggifyGenerate { module, assign },
@@ -375,16 +379,31 @@ impl Scenario for C10Faults {
         // ---- oracle 1 on the fault-free run itself: the reference input compiles without warnings,
         // so every type and value assignment must be REPRESENTED: leaving it out must make at
         // least one item disappear
-        if rf.r0.warnings.is_empty() {
+        let names_def = |w: &str, n: &str| {
+            // the name as a whole token of the warning text
+            w.match_indices(n).any(|(i, _)| {
+                let before = w[..i].chars().next_back();
+                let after = w[i + n.len()..].chars().next();
+                let is_part = |c: Option<char>| c.is_some_and(|c| c.is_alphanumeric() || c == '-');
+                !is_part(before) && !is_part(after)
+            })
+        };
+        // (a reference that does warn is checked too, as long as every one of its warnings names
+        // a definition: a definition named by a warning is accounted for)
+        let every_name: Vec<String> = p.set.modules.iter().flat_map(|m| m.assigns.iter().map(|a| a.name.clone())).collect();
+        if rf.r0.warnings.iter().all(|w| every_name.iter().any(|n| names_def(w, n))) {
             for (mi, m) in p.set.modules.iter().enumerate() {
                 for a in &m.assigns {
                     if !matches!(a.kind, AKind::Type | AKind::Value) {
                         continue;
                     }
+                    if rf.r0.warnings.iter().any(|w| names_def(w, &a.name)) {
+                        continue;
+                    }
                     if rf.raw.get(mi).and_then(|r| r.get(&a.name)).is_some_and(|items| items.is_empty()) {
                         out.violate(
                             "no-silent-loss",
-                            format!("fault-free compilation, no warnings: leaving out definition {} of module {} changes no item of the output, i.e. it is not represented in the bindings; backend {}", a.name, m.name, p.backend.short()),
+                            format!("fault-free compilation: no warning names definition {} of module {} and leaving it out changes no item of the output, i.e. it is not represented in the bindings; backend {}", a.name, m.name, p.backend.short()),
                         );
                     }
                 }
@@ -419,15 +438,6 @@ impl Scenario for C10Faults {
             }
         }
         let all_names: Vec<String> = fset.modules.iter().flat_map(|m| m.assigns.iter().map(|a| a.name.clone())).collect();
-        let names_def = |w: &str, n: &str| {
-            // the name as a whole token of the warning text
-            w.match_indices(n).any(|(i, _)| {
-                let before = w[..i].chars().next_back();
-                let after = w[i + n.len()..].chars().next();
-                let is_part = |c: Option<char>| c.is_some_and(|c| c.is_alphanumeric() || c == '-');
-                !is_part(before) && !is_part(after)
-            })
-        };
         // ---- oracle 1: accounting
         let mut lost: Vec<(usize, String)> = vec![];
         for (mi, m) in fset.modules.iter().enumerate() {
